@@ -4,7 +4,9 @@ import ast
 KEYS = ["if", "elif", "else", "while", "for", "break", "continue", "jump_under_if_in_loop",
         "nested_loop", "jump_in_inner_loop", "return_mid", "code_after_jump", "nested_def",
         "nested_def_reads_outer", "call_nested", "augassign", "copy_assign", "const_cond",
-        "var_two_types", "loop_var_read_after_loop", "bare_use"]
+        "var_two_types", "loop_var_read_after_loop", "bare_use",
+        "comprehension", "comprehension_shadows_outer_local", "comprehension_in_nested_block", "walrus",
+        "walrus_control_flow_value", "walrus_in_condition", "conditional_expression", "and_or", "chained_comparison"]
 
 
 def features(src):
@@ -72,6 +74,34 @@ def features(src):
                 out.add("bare_use")
 
     walk(f.body, 0, 0, False, set())
+    assigned_outer = {n.id for n in ast.walk(f) if isinstance(n, ast.Name) and isinstance(n.ctx, ast.Store)}
+    top = set(map(id, f.body))
+    for st in ast.walk(f):
+        if isinstance(st, (ast.ListComp, ast.GeneratorExp)):
+            out.add("comprehension")
+            tv = {n.id for g in st.generators for n in ast.walk(g.target) if isinstance(n, ast.Name)}
+            outside = {n.id for n in ast.walk(f) if isinstance(n, ast.Name) and isinstance(n.ctx, ast.Store)
+                       and not any(n in ast.walk(g.target) for g in st.generators)}
+            if tv & outside:
+                out.add("comprehension_shadows_outer_local")
+        if isinstance(st, ast.NamedExpr):
+            out.add("walrus")
+            if any(isinstance(n, (ast.IfExp, ast.BoolOp)) or (isinstance(n, ast.Compare) and len(n.ops) > 1) for n in ast.walk(st.value)):
+                out.add("walrus_control_flow_value")
+        if isinstance(st, (ast.If, ast.While)) and any(isinstance(n, ast.NamedExpr) for n in ast.walk(st.test)):
+            out.add("walrus_in_condition")
+        if isinstance(st, ast.IfExp):
+            out.add("conditional_expression")
+        if isinstance(st, ast.BoolOp):
+            out.add("and_or")
+        if isinstance(st, ast.Compare) and len(st.ops) > 1:
+            out.add("chained_comparison")
+    for st in f.body:
+        pass
+    for st in ast.walk(f):
+        if isinstance(st, (ast.If, ast.While, ast.For)):
+            if any(isinstance(n, (ast.ListComp, ast.GeneratorExp)) for b in (st.body + st.orelse) for n in ast.walk(b)):
+                out.add("comprehension_in_nested_block")
     if any(len(v) > 1 for v in types.values()):
         out.add("var_two_types")
     return out
